@@ -1072,11 +1072,24 @@ class Data(Container, NetCDFHDF5, Files, core.Data):
                 else:
                     indices1[i] = (x,)
 
+            def basic(index):
+                """Replace each single-element list with a size 1 slice.
+
+                Two or more list indices separated by a slice would
+                otherwise trigger numpy's transposing advanced
+                indexing.
+
+                """
+                return tuple(
+                    slice(i[0], i[0] + 1) if isinstance(i, list) else i
+                    for i in index
+                )
+
             if value.size == 1:
                 # 'value' is logically scalar => simply assign it to
                 # all index combinations.
                 for i in itertools.product(*indices1):
-                    array[i] = value
+                    array[basic(i)] = value
             else:
                 # 'value' has two or more elements => for each index
                 # combination for 'array' assign the corresponding
@@ -1114,7 +1127,7 @@ class Data(Container, NetCDFHDF5, Files, core.Data):
                 for i, j in zip(
                     itertools.product(*indices1), itertools.product(*indices2)
                 ):
-                    array[i] = value[j]
+                    array[basic(i)] = value[j]
 
     @property
     def compressed_array(self):
